@@ -116,6 +116,21 @@ pub(crate) mod folo_verif_slab_model {
         slab.count -= 1;
     }
 
+    /// Contract: like `remove`, but the value is moved out instead of being destroyed (the harness forgets the stand-in).
+    pub(crate) unsafe fn remove_unpin<T: Unpin>(slab: &mut Slab, handle: SlabHandle<T>) -> T {
+        let cap = slab.layout.capacity().get();
+        let base = slab.first_slot_ptr.as_ptr() as usize;
+        let addr = handle.ptr().as_ptr().cast::<u8>() as usize;
+        assert!(slab.count > 0, "slab contract: remove_unpin from an empty slab");
+        assert!(handle.index() < cap, "slab contract: handle index in range");
+        assert!(
+            addr == base + handle.index() * slab.layout.slot_layout().size() + slab.layout.slot_to_object_offset(),
+            "slab contract: handle belongs to this slab"
+        );
+        slab.count -= 1;
+        unsafe { mem::zeroed() }
+    }
+
     /// Contract of `Drop`: records whether a slab that still holds objects is dropped.
     pub(crate) fn drop(slab: &mut Slab) {
         unsafe {
